@@ -1,5 +1,6 @@
 import MsiProofs.Lemmas.Created
 import MsiProofs.Lemmas.DropTableMain
+import MsiProofs.Lemmas.OtherCalls
 /-
 The life of a package made with the library: `create`, then any sequence of statements on user
 tables, `create_table` and `drop_table` calls and saves; every invariant holds throughout, and after a save the
@@ -15,6 +16,11 @@ inductive Step
   | dml (op : MsiProofs.GlobalInvUpd.Op)
   | create (name : List Char) (cols : List Column)
   | drop (name : List Char)
+  | writeStream (n : List Char) (data : Bytes)
+  | removeStream (n : List Char)
+  | removeSignature
+  | setSummary (f : PropSet → PropSet)        -- any `summary_info_mut()` setter or clearer
+  | setCodepage (cp : Nat)                    -- `set_database_codepage`
   | save
 
 /-- the state after the call (whatever it returned) -/
@@ -22,6 +28,11 @@ def Step.run (s : Pkg) : Step → Pkg
   | .dml op => op.run { s with finisher := true }
   | .create n c => (createTable s n c).1
   | .drop n => (dropTable s n).1
+  | .writeStream n d => (Pkg.writeStream s n d).1
+  | .removeStream n => (Pkg.removeStream s n).1
+  | .removeSignature => removeDigitalSignature s
+  | .setSummary f => { s with finisher := true, summaryModified := true, summary := f s.summary }
+  | .setCodepage cp => { s with finisher := true, pool := { s.pool with codepage := cp, modified := true } }
   | .save => (flush s).1
 
 /-- `drop_table` refuses the call before doing anything -/
@@ -41,13 +52,19 @@ theorem dropRefused_noop (s : Pkg) (n : List Char) (h : dropRefused s n) : (drop
   · rw [h] at h2; exact absurd rfl h2
   · rw [h]
 
-/-- the calls the theorem covers: statements on user tables (accepted or refused); `create_table`
+/-- the calls the theorem covers: stream writes and removals, signature removal, summary setters and
+the database code page (always); statements on user tables (accepted or refused); `create_table`
 and `drop_table` calls that are refused by the up-front checks or succeed; saves that succeed, of states that
 can be written (`Savable`: text the code page can encode, a well-formed summary) -/
 def Step.Admissible (s : Pkg) : Step → Prop
   | .dml op => MsiProofs.EndToEnd.UserOp op
   | .create n c => createError s n c ≠ none ∨ (createTable s n c).2 = .ok ()
   | .drop n => dropRefused s n ∨ (dropTable s n).2 = .ok ()
+  | .writeStream _ _ => True
+  | .removeStream _ => True
+  | .removeSignature => True
+  | .setSummary _ => True
+  | .setCodepage _ => True
   | .save => (flush s).2 = .ok () ∧ ∃ E, Savable s E
 
 def Admissible : Pkg → List Step → Prop
@@ -98,6 +115,11 @@ theorem step_full (slack : Nat → Nat) (s : Pkg) (tabs : List Table) (hF : Full
     · rw [dropRefused_noop s n ha]; exact ⟨tabs, hF, hN⟩
     · have hrun : dropTable s n = ((dropTable s n).1, .ok ()) := by rw [← ha]
       exact ⟨_, MsiProofs.DropTable.dropTable_full slack s tabs hF hN n _ hrun⟩
+  | writeStream n d => exact ⟨tabs, MsiProofs.OtherCalls.writeStream_full slack s tabs hF hN n d⟩
+  | removeStream n => exact ⟨tabs, MsiProofs.OtherCalls.removeStream_full slack s tabs hF hN n⟩
+  | removeSignature => exact ⟨tabs, MsiProofs.OtherCalls.removeSignature_full slack s tabs hF hN⟩
+  | setSummary f => exact ⟨tabs, MsiProofs.OtherCalls.setSummary_full slack s tabs hF hN f⟩
+  | setCodepage cp => exact ⟨tabs, MsiProofs.OtherCalls.setCodepage_full slack s tabs hF hN cp⟩
   | save =>
     obtain ⟨hok, E, hsav⟩ := ha
     show ∃ tabs', Full slack (flush s).1 tabs' ∧ NoOrphans (flush s).1
